@@ -153,6 +153,8 @@ def views(rng, nview, counters, digests, violations, samples):
         spec = optmon.gen_problem(rng, families=("lin", "quad"))
         n = spec["n"]
         spec["limits"] = [(-rng.uniform(2, 20), rng.uniform(2, 40)) for _ in range(n)]   # finite, asymmetric
+        if rng.random() < 0.3:
+            spec["limits"] = [(-rng.randrange(2, 20), rng.randrange(2, 40)) for _ in range(n)]   # written as plain integers
         spec["wv"] = [rng.choice([1.0, 0.5, 3.0, 10.0]) for _ in range(n)]
         spec["x0"] = [rng.uniform(-1, 1) for _ in range(n)]
         spec["step"] = 1e-7
@@ -167,6 +169,13 @@ def views(rng, nview, counters, digests, violations, samples):
         x2 = err._knobs_to_x(err._x_to_knobs(x))
         if not (np.allclose(k2, k, rtol=4e-16, atol=0) and np.allclose(x2, x, rtol=4e-16, atol=0)):
             violations.append(dict(wit, what="C16 knob weights are not inverses: knobs %s -> %s, x %s -> %s" % (k, k2, x, x2)))
+        # the x limits are the knob limits divided by the weights (independent of how the limits were written)
+        want_lims = np.array(spec["limits"], dtype=float) / np.array(spec["wv"], dtype=float)[:, None]
+        got_lims = np.array(err._get_x_limits(), dtype=float)
+        counters["x_limits_compared"] = counters.get("x_limits_compared", 0) + 1
+        if got_lims.shape != want_lims.shape or not np.allclose(got_lims, want_lims, rtol=4e-16, atol=0):
+            violations.append(dict(wit, what="C16 x limits %s, expected knob limits / weight = %s" % (got_lims.tolist(), want_lims.tolist())))
+            continue
         want_x = k / np.array(spec["wv"])
         if not np.allclose(err._knobs_to_x(k), want_x, rtol=4e-16, atol=0):
             violations.append(dict(wit, what="C16 _knobs_to_x(%s) = %s, expected knob/weight = %s" % (k, err._knobs_to_x(k), want_x)))
